@@ -35,7 +35,8 @@ class PCACompressionOp(LinearOperator):
         # different compression matrices along the *other dimensions
         data = data - data.mean(-1, keepdim=True)
         correlation = einops.einsum(data, data.conj(), '... joint comp1, ... joint comp2 -> ... comp1 comp2')
-        _, _, v = torch.svd(correlation)
+        # rows of vh are the (conjugated) principal directions, sorted by decreasing singular value
+        _, _, v = torch.linalg.svd(correlation)
         # add joint_dim along which the the compression is the same
         v = repeat(v, '... comp1 comp2 -> ... joint_dim comp1 comp2', joint_dim=1)
         self.register_buffer('_compression_matrix', v[..., :n_components, :].clone())
